@@ -15,15 +15,17 @@ import ast
 
 from lcsa.alg import Rat
 from lcsa.eff import Effects
-from lcsa.model import Undecided
+from lcsa.model import Undecided, unparse
 from lcsa.ref import Pair, subst_rows
 from lcsa.dt import compare_rows, feasible_with
 from lcsa.sym import Evaluator, RLEV, subst_deep, deep_atoms, FUNC_REG, fatom, LETTERS
-from props.common import SEQ, SEQ_PATH, check_charge_map
+from props.common import CONDITIONAL_CALLEES, SEQ, SEQ_PATH, check_charge_map
 from props import C03, C06, C07
 
 
 def run(ck, prog):
+    from props.common import check_memos
+    ck.attempt(check_memos, ck, prog)
     ck.explanation = (
         "Dependence is read from the interprocedural read sets and from the atoms of the normal forms; the symmetry premises "
         "are polynomial identities on the normal forms lcsa derives from the code (atoms for + and - counts exchanged); the "
@@ -37,7 +39,7 @@ def run(ck, prog):
 
 
 def _dep(ck, prog):
-    E = Effects(prog)
+    E = Effects(prog, cut=CONDITIONAL_CALLEES)
     methods = {g.name for g in prog.mod(SEQ).funcs.values() if g.cls == "Sequence"}
     want = {"kappa": {"chargePattern", "len", "dmax", "seqDeltaMax", "seq"}, "Omega": {"seq"}}
     # delta / sigma / SCD: read off the normal forms (path-sensitive: the pH branch of NCPR/FCR is not taken)
@@ -173,14 +175,42 @@ def _reversal(ck, prog):
           where=nf["loc"])
 
 
+def code_family_rows(prog):
+    """the candidate families as the code enumerates them: [(conds, ('family', blocks, vars))]"""
+    f, ev, results, flag = C03.walk_deltamax(prog)
+    rows = []
+    for conds, kind, payload in results:
+        if kind != "update":
+            continue
+        node, env, lv = payload
+        objs = {unparse(c.func.value) for c in ast.walk(node.test) if isinstance(c, ast.Call) and getattr(c.func, "attr", "") == "delta"}
+        if len(objs) != 1:
+            raise Undecided("candidate update shape", f.loc(node))
+        cand = env.get(next(iter(objs)))
+        if not (isinstance(cand, tuple) and cand and cand[0] == "CANDIDATE" and isinstance(cand[1][0], RLEV)):
+            raise Undecided("candidate is not a run-length string", f.loc(node))
+        names = [v[0] for v in lv]
+        base = [c for c in conds if not C03._mentions_loopvar(c, names)]
+        rows.append((base, ("family", list(cand[1][0].blocks), [(v, lo, hi) for v, lo, hi, _ in lv])))
+    return rows
+
+
 def _family_closure(ck, prog):
-    """lemma on the specification: rev(inv(F(n+, n-, n0))) = F(n-, n+, n0)"""
-    spec = [r for r in C03.spec_rows() if r[1] is not None and r[1][0] == "family"]
+    """reverse(invert(F(n+, n-, n0))) = F(n-, n+, n0) - decided on the families the CODE enumerates (a necessary condition
+    of inversion invariance of delta-max that does not go through the documented families), and on the documented ones"""
+    for label, spec in (("code", code_family_rows(prog)), ("spec", [r for r in C03.spec_rows() if r[1] is not None and r[1][0] == "family"])):
+        _closure_of(ck, label, spec)
+
+
+def _closure_of(ck, label, spec):
     swap = {"npos": Rat.atom("nneg"), "nneg": Rat.atom("npos")}
     inv = {"+": "-", "-": "+", "0": "0"}
     n = 0
     for conds, (_, blocks, vars_) in spec:
-        tb = [(inv[c], k) for c, k in reversed(RLEV(blocks).blocks)]
+        base_blocks = RLEV(blocks).blocks
+        # delta is invariant under inversion and under reversal separately, so any element of the group they generate will do
+        images = {"rev.inv": [(inv[c], k) for c, k in reversed(base_blocks)], "inv": [(inv[c], k) for c, k in base_blocks],
+                  "id": list(base_blocks), "rev": list(reversed(base_blocks))}
         for conds2, (_, blocks2, vars2) in spec:
             c2 = [_sc(c, swap) for c in conds2]
             both = list(conds) + c2
@@ -191,14 +221,23 @@ def _family_closure(ck, prog):
             ren = {v[0]: Rat.atom(v[0] + "'") for v in vars2}
             b2 = [(c, k.subst(ren)) for c, k in b2]
             v2 = [(v + "'", lo.subst(swap).subst(ren), hi.subst(swap).subst(ren)) for v, lo, hi in vars2]
-            tb_s, vs_s, sub = C03._subst_family(both, tb, vars_)
-            b2_s = RLEV([(c, k.subst(sub)) for c, k in b2]).blocks
-            v2_s = [(v, lo.subst(sub), hi.subst(sub)) for v, lo, hi in v2]
-            r1 = C03.family_included(tb_s, vs_s, b2_s, v2_s, both)
-            r2 = C03.family_included(b2_s, v2_s, tb_s, vs_s, both)
-            ck.ob("INV-families", "spec:deltamax-families", r1 is None and r2 is None, expected="reverse(invert(F(n+,n-,n0))) == F(n-,n+,n0)",
-                  found={"forward": r1, "backward": r2}, slot="".join(c for c, _ in RLEV(blocks).blocks) + "->" + "".join(c for c, _ in b2_s) + "#%d" % n,
-                  note="with C03 (code families = documented families) this gives delta-max(inverted) = delta-max")
+            r1 = r2 = "no element of {id, inv, rev, rev.inv} maps one family onto the other"
+            for gname, tb in images.items():
+                tb_s, vs_s, sub = C03._subst_family(both, tb, vars_)
+                b2_s = RLEV([(c, k.subst(sub)) for c, k in b2]).blocks
+                v2_s = [(v, lo.subst(sub), hi.subst(sub)) for v, lo, hi in v2]
+                a1 = C03.family_included(tb_s, vs_s, b2_s, v2_s, both)
+                a2 = C03.family_included(b2_s, v2_s, tb_s, vs_s, both)
+                if a1 is None and a2 is None:
+                    r1 = r2 = None
+                    break
+                if gname == "rev.inv":
+                    r1, r2 = a1, a2
+            # inner-choice ties (equal block counts) are left open by the statement: skip pairs that overlap only on a tie
+            construct = "spec:deltamax-families" if label == "spec" else SEQ_PATH + ":Sequence.deltaMax"
+            ck.ob("INV-families", construct, r1 is None and r2 is None, expected="g(F(n+,n-,n0)) == F(n-,n+,n0) for some g in {id, inv, rev, rev.inv}",
+                  found={"forward": r1, "backward": r2}, slot=label + ":" + "".join(c for c, _ in RLEV(blocks).blocks) + "->" + "".join(c for c, _ in b2_s) + "#%d" % n,
+                  note="closure of the candidate families under reversal+inversion is what makes delta-max invariant under charge inversion")
             n += 1
-    ck.count("family closure cases", n)
-    ck.floor("family closure cases", n, 6)
+    ck.count("family closure cases (%s)" % label, n)
+    ck.floor("family closure cases (%s)" % label, n, 6)
